@@ -272,7 +272,7 @@ impl ProtocolKernel {
     pub fn poll_tasks(&mut self, cx: &mut Context<'_>) -> usize {
         let mut tasks = std::mem::take(&mut *self.tasks.lock());
         let before = tasks.len();
-        tasks.retain_mut(|task| task.as_mut().poll(cx).is_pending());
+        tasks.retain_mut(|task| matches!(task.as_mut().poll(cx), Poll::Pending));
         let finished = before - tasks.len();
         self.tasks.lock().extend(tasks);
         finished
